@@ -122,7 +122,7 @@ class Segment(CoreSummaries, Contract):
         cur = I.st
         I.st = st
         try:
-            return I.num(I.eval_spec(text, fr))
+            return I.num(I.eval_spec(text, fr, old_st=self.pre_state, old_frame=self.pre_frame(I)))
         finally:
             I.st = cur
 
@@ -141,7 +141,7 @@ class Segment(CoreSummaries, Contract):
 
     def segment_clauses(self):
         rp = {'held': self.held_text, 'inflight_pre': self.inflight_pre, 'inflight_post': self.inflight_post}
-        return [Clause('C05.balance', ['C05', 'C04'], fn=self.balance_clause(), when='any', kind='balance', replay=rp,
+        return [Clause('C05.balance', ['C05', 'C04'], fn=self.balance_clause(), when='normal', kind='balance', replay=rp,
                        note='own ref-count effect of the segment == change of (buffered holds + holds of the suspended frame)')]
 
     def cover(self, outcomes):
@@ -242,3 +242,34 @@ def async_summaries(c):
     return {'IOLoop.call_later': call_later, 'IOLoop.add_callback': add_callback, 'TimerHandle.cancel': cancel,
             'Queue.put': q_put, 'Queue.get': q_get, 'Condition.notify': notify, 'Condition.notify_all': notify,
             'Condition.wait': wait, '__gen.sleep': sleep}
+
+
+def coroutine_call_summary(qual):
+    """Calling a @gen.coroutine function runs its body synchronously up to its first yield (tornado semantics);
+    the caller gets a future.  The callee's first segment is executed inline on the same state; what remains is
+    recorded in the ghost list `pending_coroutines`."""
+    def summary(I, recv, args, kwargs):
+        rel, node = I.index.function(qual)
+        f = VFunc(qual, node, bound=recv)
+        loc = I.bind_args(node, recv, args, dict(kwargs), qual)
+        fr = Frame(qual, loc)
+        saved = getattr(I, 'yield_ids', None)
+        g = I.st.ghost
+        try:
+            try:
+                I.run_segment(f, fr, 0, None)
+                done = True
+                idx = 0
+            except SegmentYield as e:
+                done = False
+                idx = e.index
+        finally:
+            I.yield_ids = saved
+        aw = VAw(z3.Const(sym.fresh_name('coro_aw'), sym.Aw))
+        pend = g.get('pending_coroutines', VTuple([]))
+        if not done:
+            g['pending_coroutines'] = VTuple(pend.items + [VTuple([VStr(qual), VInt(idx)])])
+            g.setdefault('_pending_frames', [])
+            g['_pending_frames'] = g['_pending_frames'] + [(qual, idx, fr)]
+        return aw
+    return summary
